@@ -29,7 +29,7 @@ OldTargets == { <<Lit("/t/"), Ref("abc"), Lit("/"), Ref("ab"), Lit("/"), Ref("a"
              <<Lit("/t?"), Ref("ab"), Lit("="), Ref("a"), Lit("&h="), Ref("h"), Lit("&k="), Ref("k")>> }
 UsedBy(p, h, hd) == RefsOf(p) \cup RefsOf(h) \cup RefsOf(hd)
 R(m, p, h, hd, t) == [markers |-> m, path |-> p, host |-> h, hdr |-> hd, target |-> TargetFor(UsedBy(p, h, hd)),
-                      hfv |-> HfvFor(UsedBy(p, h, hd)), bfv |-> BfvFor(UsedBy(p, h, hd))]
+                      hfv |-> HfvFor(UsedBy(p, h, hd)), bfv |-> BfvFor(UsedBy(p, h, hd)), vars |-> FALSE]
 \* typed languages on the anything-marker, transformer chains on ab
 AnyRule(lang) == R([BaseMarkers EXCEPT !["ab"] = M(lang, <<>>)], <<Lit("/z/"), Ref("ab")>>, <<>>, <<>>, <<Lit("/t/"), Ref("ab")>>)
 CaseConv == {"camelize", "dasherize", "underscorize"}
@@ -38,9 +38,16 @@ Chains == {<<>>} \cup {<<t>> : t \in TransformerNames} \cup {<<t, u>> : t \in Tr
 ChainRule(c) == R([BaseMarkers EXCEPT !["ab"] = M("anything", c)], <<Lit("/z/"), Ref("ab")>>, <<>>, <<>>, <<Lit("/t/"), Ref("ab"), Lit("/"), Ref("ab")>>)
 
 RulesMatch == {R(BaseMarkers, p, h, hd, <<>>) : p \in PathTpls, h \in HostTpls, hd \in HdrTpls}
-RulesLang == {AnyRule(l) : l \in {"integer", "lowercase", "enum", "date", "uuid", "anything"}}
-RulesChain == {ChainRule(c) : c \in Chains}
+\* between two literals, so that an ungrouped alternation would split the whole pattern
+MidRule(lang) == R([BaseMarkers EXCEPT !["ab"] = M(lang, <<>>)], <<Lit("/z/"), Ref("ab"), Lit("/e")>>, <<>>, <<>>, <<>>)
+RulesLang == {AnyRule(l) : l \in {"integer", "lowercase", "enum", "alt", "date", "uuid", "anything"}} \cup {MidRule(l) : l \in {"enum", "alt", "lowercase"}}
+\* a marker captured from the HOST keeps non-ASCII text as it is (paths are percent-encoded before capture)
+HostChainRule(c) == R([BaseMarkers EXCEPT !["h"] = M("anyhost", c)], <<Lit("/q")>>, <<Ref("h"), Lit(".example.com")>>, <<>>, <<>>)
+\* the same rules with explicitly declared variables, shortest name first
+WithVars(r) == [r EXCEPT !.vars = TRUE]
+RulesChain == {ChainRule(c) : c \in Chains} \cup {HostChainRule(c) : c \in {<<>>, <<"uppercase">>, <<"lowercase">>, <<"lowercase", "replace_b_x">>, <<"uppercase", "replace_dash_plus">>}}
 Rules == CASE Mode = "match" -> RulesMatch [] Mode = "lang" -> RulesLang [] Mode = "chain" -> RulesChain
+           [] Mode = "vars" -> {WithVars(r) : r \in {x \in RulesMatch : x.path = <<Lit("/"), Ref("a"), Lit("/"), Ref("ab"), Lit("/"), Ref("abc")>>}}
 
 \* instantiations: every used marker takes one of its candidate values; unused markers a fixed accepted value
 DefaultVal(n) == CASE n = "a" -> "12" [] n = "ab" -> "ab" [] n = "abc" -> "cat" [] n = "h" -> "ab" [] n = "k" -> "ab"
@@ -53,6 +60,6 @@ Spec == Init /\ [][Next]_vars
 \* sanity of the tables: a transformer chain maps known values to known values
 ChainsClosed == \A n \in Used(rule) : Chain(rule.markers[n].chain, 1, inst[n]) \in TValues \/ rule.markers[n].chain = <<>>
 Emit == PrintT(<<"REPLAY", ToJson([rule |-> [markers |-> [n \in Names |-> [lang |-> rule.markers[n].lang, regex |-> Regex(rule.markers[n].lang), chain |-> rule.markers[n].chain]],
-                                             path |-> rule.path, host |-> rule.host, hdr |-> rule.hdr, target |-> rule.target, hfv |-> rule.hfv, bfv |-> rule.bfv],
+                                             path |-> rule.path, host |-> rule.host, hdr |-> rule.hdr, target |-> rule.target, hfv |-> rule.hfv, bfv |-> rule.bfv, vars |-> rule.vars],
                                    inst |-> inst])>>)
 =============================================================================
